@@ -11,6 +11,8 @@ structure TObs where
   shape : List Nat
   rowsIdx : Option (List (List Nat))     -- none: the observation itself raised
   rowsIter : Option (List (List Nat))
+  rowsNeg : Option (Option (List (List Nat))) := none   -- outer none: not observed; inner none: the observation raised
+  rowsOob : List Int := []                              -- out-of-range row positions that gave a row
 
 def asTObs (j : Json) : P (Option TObs) := do
   if j.isNull then return none
@@ -20,7 +22,11 @@ def asTObs (j : Json) : P (Option TObs) := do
   let cols ← colsJ.mapM (fun c => listF asNat c "data")
   let names ← colsJ.mapM (fun c => asOpt asStr (fieldD c "name" Json.null))
   return some { cols := cols, names := names, len := ← natF j "len", shape := ← listF asNat j "shape",
-                rowsIdx := (listF (asList asNat) j "rows_idx").toOption, rowsIter := (listF (asList asNat) j "rows_iter").toOption }
+                rowsIdx := (listF (asList asNat) j "rows_idx").toOption, rowsIter := (listF (asList asNat) j "rows_iter").toOption,
+                rowsNeg := match j.getObjVal? "rows_neg" with
+                  | .ok _ => some ((listF (asList asNat) j "rows_neg").toOption)
+                  | .error _ => none,
+                rowsOob := ((listF asInt j "rows_oob").toOption).getD [] }
 
 /-- columns shown by a slot that holds a table, or the single column of a vector -/
 def asCols (j : Json) : P (Option (List (List Nat))) := do
@@ -38,6 +44,10 @@ def checkTable (t : TObs) : Option String :=
   else if t.shape != [t.len, t.cols.length] then some s!"shape {t.shape} but {t.len} rows x {t.cols.length} columns"
   else if t.rowsIdx != some (rows t.cols t.len) then
     some s!"rows by indexing {t.rowsIdx} differ from the columns' values {rows t.cols t.len} (none = indexing raised)"
+  else if t.rowsNeg.isSome && t.rowsNeg != some (some (rows t.cols t.len)) then
+    some s!"rows by negative indexing t[-n] … t[-1] {t.rowsNeg} differ from the columns' values {rows t.cols t.len} (none = indexing raised)"
+  else if !t.rowsOob.isEmpty then
+    some s!"row positions {t.rowsOob} lie outside [-{t.len}, {t.len}) and yet gave a row"
   else if t.rowsIter != some (rows t.cols t.len) then
     some s!"rows by iteration {t.rowsIter} differ from the columns' values {rows t.cols t.len} (none = iteration raised)"
   else none
